@@ -924,6 +924,14 @@ class KmipEngine(object):
             elif attribute_name == "Sensitive":
                 field = "sensitive"
 
+            if field and not hasattr(managed_object, field):
+                # E.g. certificates: the attribute policy calls algorithm
+                # and length applicable, but the stored object has no such
+                # field to set.
+                raise exceptions.InvalidField(
+                    "The {0} attribute cannot be set on this type of "
+                    "object.".format(attribute_name)
+                )
             if field:
                 existing_value = getattr(managed_object, field)
                 if existing_value:
